@@ -719,6 +719,76 @@ func runC16(c *Ctx) {
 		}
 	}
 
+	// 3b. same key and algorithm, another audience and/or issuer: honest codecs of sibling deployments
+	// configured by hand (JWTSessionCodec / JWTTrackedRequestCodec are public and documented as replaceable)
+	type idVar struct {
+		label    string
+		aud, iss func(u string) string
+	}
+	same := func(u string) string { return u }
+	idVars := []idVar{
+		{"aud-other", func(u string) string { return "https://other.example.com/" }, same},
+		{"iss-other", same, func(u string) string { return "https://other.example.com/" }},
+		{"aud-empty", func(u string) string { return "" }, same},
+		{"iss-empty", same, func(u string) string { return "" }},
+		{"aud-extension", func(u string) string { return u + "x" }, same},
+		{"iss-prefix", same, func(u string) string { return strings.TrimSuffix(u, "/") + "" }},
+		{"aud-iss-swapped-deployment", func(u string) string { return "https://apps.example.com/wiki/" }, func(u string) string { return "https://apps.example.com/payroll/" }},
+	}
+	for di, d := range deps {
+		for vi, v := range idVars {
+			if (di+vi)%2 != 0 && !c.Thorough() {
+				continue
+			}
+			a := asserts[(di+vi)%len(fixedAssertions())]
+			t0 := t0s[vi%len(t0s)]
+			aud, iss := v.aud(d.url), v.iss(d.url)
+			if aud == d.sc.Audience && iss == d.sc.Issuer {
+				continue
+			}
+			// session codec
+			codec := d.sc
+			codec.Audience, codec.Issuer = aud, iss
+			setClock(t0)
+			var s string
+			func() {
+				defer func() { recover() }()
+				if sess, err := codec.New(a.build()); err == nil {
+					s, _ = codec.Encode(sess)
+				}
+			}()
+			if t, mapped := parseTok(s, d.key.term, true); s != "" && mapped && t != nil {
+				w := &wireG{bytes: s, t: t, label: "honest-session-" + v.label, signer: d.key,
+					org: origin{kind: "session", term: fmt.Sprintf("(OSession %s %s %s)", liveCodecTerm(codec.SigningMethod, d.key, aud, iss, codec.MaxAge), emit.Z(t0), a.term()),
+						desc: map[string]any{"minted_by": "codec with key of " + d.name + ", Audience " + aud + ", Issuer " + iss, "t0_ns": t0, "kind": "session"}}}
+				addDec(d, true, t0+nsPerS, w, d.sessionCookie(), "t0+1s")
+				addDec(d, false, t0+nsPerS, w, "", "t0+1s")
+			}
+			// tracking codec
+			tcodec := d.tc
+			tcodec.Audience, tcodec.Issuer = aud, iss
+			trq := samlsp.TrackedRequest{Index: "ix-" + v.label, SAMLRequestID: "id-" + v.label, URI: "/x"}
+			for _, arr := range []bool{true, false} {
+				setClock(t0)
+				old := jwt.MarshalSingleStringAsArray
+				jwt.MarshalSingleStringAsArray = arr
+				var ts string
+				func() {
+					defer func() { recover() }()
+					ts, _ = tcodec.Encode(trq)
+				}()
+				jwt.MarshalSingleStringAsArray = old
+				if t, mapped := parseTok(ts, d.key.term, true); ts != "" && mapped && t != nil {
+					w := &wireG{bytes: ts, t: t, label: "honest-tracking-" + v.label, signer: d.key,
+						org: origin{kind: "tracking", term: fmt.Sprintf("(OTracking %s %s %s %s)", emit.Bool(arr), liveCodecTerm(tcodec.SigningMethod, d.key, aud, iss, tcodec.MaxAge), emit.Z(t0), trackedTerm(trq)),
+							desc: map[string]any{"minted_by": "tracking codec with key of " + d.name + ", Audience " + aud + ", Issuer " + iss, "t0_ns": t0, "kind": "tracking", "aud_as_array": arr}}}
+					addDec(d, false, t0+nsPerS, w, "", "t0+1s")
+					addDec(d, true, t0+nsPerS, w, d.sessionCookie(), "t0+1s")
+				}
+			}
+		}
+	}
+
 	// 4. structure-aware mutations of honest tokens
 	otherKeyFor := func(d *deploy) *hkey {
 		switch d.key.name {
